@@ -52,6 +52,8 @@ pub fn pool() -> Vec<(&'static str, &'static str)> {
         ("arith-in-initialisers", "contract Ia# { uint256 public constant P# = 7 * 86400 ; uint256 x# = 2 ** 8 + 1 ; function f# ( ) public payable { } }"),
         ("arith-in-file-constant", "uint256 constant Fc# = 7 * 86400 + 1 ;"),
         ("arith-in-base-args", "contract Ba# is A0 ( 1 + 2 ) { }"),
+        ("prefix-increments", "contract Pi# { uint256 votes# ; function p# ( uint256 k ) public { ++ k ; -- k ; ++ votes# ; } }"),
+        ("free-prefix-increment", "function fp# ( uint256 left ) pure returns ( uint256 ) { -- left ; return left ; }"),
         ("library-of-named-struct", "library Ln# { struct Kind { uint128 a ; uint256 b ; uint128 c ; } function _k# ( Price p ) internal { } }"),
     ]
 }
@@ -216,7 +218,7 @@ pub fn run(tier: Tier) -> i32 {
     run.set("evaluations", calls);
     run.set("distinct_nontrivial", outcomes.len() as u64);
     run.set("item_templates", n as u64);
-    run.set("rule", "states = files built from all sequences with repetition of 2 items (x pragma first / between / last) and of 3 items (quick: every 4th; thorough: all, pragma first and last) from a pool of 36 item templates instantiated with fresh identifier suffixes; transitions = detector calls on the whole file and on each item-wise blanked file (28 detectors); oracle = set equality of the whole-file lines with the union of the per-item lines; non-trivial = distinct (detector, whole-file result) outcomes");
+    run.set("rule", "states = files built from all sequences with repetition of 2 items (x pragma first / between / last) and of 3 items (quick: every 4th; thorough: all, pragma first and last) from a pool of 38 item templates instantiated with fresh identifier suffixes; transitions = detector calls on the whole file and on each item-wise blanked file (28 detectors); oracle = set equality of the whole-file lines with the union of the per-item lines; non-trivial = distinct (detector, whole-file result) outcomes");
     run.set("bound_completed", if tier == Tier::Quick { "all pairs x 3 pragma positions; every 4th triple" } else { "all pairs and all triples" });
     run.set("samples", json!(seqs.iter().step_by(seqs.len() / 3 + 1).take(3).map(|(s, p)| json!({"items": s.iter().map(|&i| pool[i].0).collect::<Vec<_>>(), "pragma_position": p})).collect::<Vec<_>>()));
     run.finish()
